@@ -226,17 +226,6 @@ A_GRAPH = dict(A_FULL, allk=True)
 A_CORE = dict(good=CORE_GOOD, bad=CORE_BAD, styles=["with"], dip=["DFL"], allk=False)
 
 
-def _in_alpha(op, alpha):
-    k = op[0]
-    if k == "open":
-        return op[1] in alpha["good"] and op[2] in alpha["styles"]
-    if k == "fail":
-        return op[1] in alpha["bad"]
-    if k == "dip":
-        return op[1] in alpha["dip"]
-    return True
-
-
 def _nfaults(hist):
     st, n = (), 0
     for op in hist:
@@ -305,10 +294,9 @@ def _hz(v):
         return repr(v)
 
 
-_PRIS_ROWS = {}      # id(row object) -> row object, for the rows of the pristine tables (kept alive by isolation.py)
-
-
+_PRIS_ROWS = {}      # id(row object) -> row object, for the rows of the pristine tables (kept alive here)
 _PRIS_IDS = set()
+_PRIS_COPY = {}      # id(row object) -> deep copy of its fields at start-up
 
 
 def _rows(tbl):
@@ -413,9 +401,6 @@ def init_worker():
     for m_ in ("m", "g", "s"):
         if m_ not in UNIT_STANDARD:
             raise HarnessError("alphabet: %s missing" % m_)
-
-
-_PRIS_COPY = {}
 
 
 def _restore():
@@ -680,7 +665,8 @@ class Run:
         if d:
             self.bad("dip-parse", "tables equal the snapshot taken before DIP.parse()", d, tags, _behaviour(d))
         if self.fail is None and o[0] == "err" and not predicted_fail:
-            self.bad("dip-usable", "DIP text using its own custom units parses", list(o[1:]), tags, "raises:" + o[1])
+            self.bad("dip-usable", "DIP text using its own custom units parses", list(o[1:]), tags,
+                     "raises:" + _msg(o))
         if self.fail is None:
             self.check_open_usable(tags)
         if self.fail is None:
@@ -688,6 +674,24 @@ class Run:
         if o[0] == "err" and k > 0:
             raise _Unwind(k, idx)
         self.done(idx, "dip-" + o[0])
+
+
+def _report(sh, rec):
+    """keep at most two records per failure class and shard in the failure list (the runner caps the merged list);
+    the others still count as violations"""
+    from .. import findings
+    cls = sh.extra.setdefault("_cls", {})
+    key = (rec["sub"], rec["behaviour"], tuple(rec["tags"]))
+    cls[key] = cls.get(key, 0) + 1
+    if cls[key] <= 2 or findings.attribute(PROPERTY, rec) is not None:
+        sh.fail(rec)
+    else:
+        sh.failures_dropped += 1
+
+
+def _msg(o):
+    """exception outcome -> 'Type:first words of the message' (without the offending symbol)"""
+    return "%s:%s" % (o[1], o[2].split(":")[0].strip("('\" ")[:60])
 
 
 def _exec(hist, sh, tier=None, part=None, seen=None):
@@ -708,11 +712,16 @@ def _exec(hist, sh, tier=None, part=None, seen=None):
     if tier is not None and _owner(hist, tier) == part and _nontrivial(hist):
         sh.nontrivial += 1
     if bad is not None:
+        # the parts overlap and a violation found in a prefix is found again by every extension: a record is
+        # reported only when the violating history is the executed history itself and this part owns it (the
+        # prefix-closed parts execute every prefix as a history of its own); left-overs belong to "cycles"
         key = repr(bad["case"])
-        if seen is None or key not in seen:
+        own = _owner([tuple(op) for op in bad["case"]["history"]], tier) if tier is not None else part
+        full = len(bad["case"]["history"]) == len(hist)
+        if ((own == part and full) or own == "cycles") and (seen is None or key not in seen):
             if seen is not None:
                 seen.add(key)
-            sh.fail(bad)
+            _report(sh, bad)
         sh.count("violating-history")
     return r
 
@@ -749,7 +758,8 @@ LREQ = dict(
     CO=(("len",), (), (), ("c",), True), CF=((), (), (), ("d",), None), MO=(("len",), ("w",), (), (), True),
     CA=(("len",), ("w",), (), ("a",), True), BE=(("len",), ("w",), (), ("b",), True),
 )
-LFEAT = dict(EX="numerical-expression", EB="numerical-expression-raises", EN="numerical-expression-without-custom-unit", CO="condition", CA="case",
+LFEAT = dict(EX="numerical-expression", EB="numerical-expression-raises",
+             EN="numerical-expression-without-custom-unit", CO="condition", CA="case",
              BE="logical-expression", MO="modification-converts", UV="unit-defined-from-custom-unit",
              NI="int-node", FW="float-node")
 
@@ -820,7 +830,7 @@ def _dip_case(ctx, lines, split=0):
             exp = _dip_expect(lines, ctx)
             if bad is None and exp is True and o[0] == "err":
                 bad = failure("dip-usable", case, "DIP text that defines its units before using them parses",
-                              list(o[1:]), tags=tags, behaviour="raises:%s:%s" % (o[1], o[2][:60]))
+                              list(o[1:]), tags=tags, behaviour="raises:" + _msg(o))
             if bad is None:
                 live = {"inA": ["Xa"], "inLM": ["[mas]"]}.get(ctx, [])
                 for p in live:
@@ -867,7 +877,7 @@ def _dip_explore(ctx, prefix, maxlen, sh):
         if len(prefix) >= 2 and any(ln in ("UL", "UM", "UV", "UL2") for ln in prefix):
             sh.nontrivial += 1
         if bad is not None:
-            sh.fail(bad)
+            _report(sh, bad)
         if len(sh.samples) < 1 and len(prefix) >= 3 and res == "ok":
             sh.sample(dict(route="dip", ctx=ctx, lines=list(prefix)))
         ok_any = ok_any or res == "ok"
@@ -909,6 +919,10 @@ def _histories(first, length, alpha):
 
 def plan(tier, seed):
     shards = []
+    # dip (first: few, comparatively long shards)
+    for ctx in DIP_CTX:
+        for ln in LNAMES:
+            shards.append(("dip", (ctx, ln), tier))
     opens = [("open", s, st) for s in GOOD for st in ("with", "explicit")]
     # graph: partition of the state graph by the bottom scopes of the stack
     shards.append(("graph", (), tier))
@@ -931,10 +945,6 @@ def plan(tier, seed):
     cyc = _cycles()
     for i in range(len(cyc)):
         shards.append(("cycles", i, tier))
-    # dip
-    for ctx in DIP_CTX:
-        for ln in LNAMES:
-            shards.append(("dip", (ctx, ln), tier))
     return shards
 
 
@@ -988,6 +998,7 @@ def run_shard(desc):
         _dip_explore(ctx, [ln], LDIP[tier], sh)
     else:
         raise HarnessError("unknown shard kind %r" % (kind,))
+    sh.extra.pop("_cls", None)
     return sh
 
 
